@@ -1,4 +1,5 @@
 """C20 - a create option means the same via flag, configuration file or keyword."""
+import locale
 import os
 
 from hypothesis import strategies as st
@@ -20,7 +21,7 @@ RULE = ("Cases: tree x subset and values of {announce (1-3 urls), web-seed, http
         "structure, align -> piece-aligned files. Non-trivial: >= 2 options besides out, or a list-valued flag directly before the content path. "
         "Distinct = distinct canonical case JSON.")
 ASSUMPTIONS = [
-    "values avoid what an ini file cannot carry (%, newlines, edge whitespace, leading #/;, the literals true/false, non-ASCII) and a leading '-' on the command line",
+    "values avoid what an ini file cannot carry literally (%, newlines, edge whitespace, leading #/;); non-ASCII comment/source values are judged in UTF-8 locales only (the ini file is read in the locale's encoding) and a leading '-' on the command line",
     "`out` is always supplied (the default location is documented differently in manual and code and is not judged)",
     "vf/ref/bencode.py strict decoder",
 ]
@@ -35,7 +36,7 @@ URLS = ["http://tracker.example/announce", "udp://t2.example:6969", "https://a.b
 def value_text():
     # comment / source are free text: the words true / false / yes / on / 1 are text there too (`--comment true` records "true")
     return st.one_of(st.sampled_from(["c", "a comment", "x=y&z", "MyTracker", "with : colon", "0", "k = v", "Season 2 #3 ; remastered", "a ;b", "x #y",
-                                      "true", "false", "True", "FALSE", "yes", "on", "1", "none"]),
+                                      "true", "false", "True", "FALSE", "yes", "on", "1", "none", "caf\u00e9 \u2615", "\u65e5\u672c\u8a9e"]),
                      st.text(alphabet="abc XYZ09_=&+:;[]", min_size=1, max_size=12)).filter(
         lambda t: t.strip() == t and t and t[0] not in "#;-")
 
@@ -51,7 +52,6 @@ def strategy(tier):
         P = 16384
         version = draw(st.sampled_from(["1", "1", "2", "3"]))
         t = draw(trees.tree(P, max_files=4, cli_safe=True, big=False))
-        # names that look like sub-commands would be taken for one by the CLI front end: precondition of every caller
         opts = {}
         names = draw(st.lists(st.sampled_from(["announce", "web-seed", "http-seed", "private", "source", "comment", "piece-length",
                                                "meta-version", "align"]), unique=True, max_size=6))
@@ -196,8 +196,10 @@ def check_fields(m, case, P_default=None):
 def run_case(case):
     target.reset()
     tree = case["tree"]
-    if tree["name"] in ("m", "new", "edit", "info", "check", "create", "magnet", "rename", "rebuild", "recheck"):
-        return Outcome(None, False, ["name-is-a-subcommand"])
+    if locale.getpreferredencoding(False).lower().replace("-", "") != "utf8" and any(
+            not str(v).isascii() for v in case["opts"].values() if isinstance(v, str)):
+        # the tool reads torrentfile.ini in the locale's encoding: non-ASCII values are only comparable in a UTF-8 locale
+        return Outcome(None, False, ["non-ascii-value-in-non-utf8-locale"])
     with sandbox.Scratch("c20") as scr:
         os.makedirs(os.path.join(scr, "src"))
         content = sandbox.materialize(tree, os.path.join(scr, "src"))
@@ -257,7 +259,7 @@ def run_case(case):
             if route == "config":
                 os.makedirs(os.path.join(scr, "confdir"), exist_ok=True)
                 cfg = os.path.join(scr, "confdir", "conf.ini")                          # not in the working directory
-                with open(cfg, "w", encoding="ascii") as fd:
+                with open(cfg, "w", encoding="utf-8") as fd:
                     fd.write(config_text(case, out))
                 if case.get("decoy_ini_in_cwd"):
                     # a general defaults file in the working directory must not override the explicit --config-path
